@@ -119,9 +119,9 @@ func (s *XModel) updateExtUtxo(tx *pb.Transaction, batch kvdb.Batch) error {
 
 // DoTx running a transaction and update extUtxoTable
 func (s *XModel) DoTx(tx *pb.Transaction, batch kvdb.Batch) error {
-	if len(tx.Blockid) > 0 {
-		s.cleanCache(batch)
-	}
+	// the batch cache only describes the batch it was filled for: versions left there by a block
+	// (or by an undo) must not be consulted for an unconfirmed tx, which has a batch of its own
+	s.cleanCache(batch)
 	err := s.verifyInputs(tx)
 	if err != nil {
 		return err
